@@ -68,8 +68,7 @@ theorem matCX_eq_mCnot : (CQ1.mCnot : LMat α) = Spec.OQ2.matCX := by
 
 /-- `CCRZ(λ) ↦ cr b,t, λ/2; cnot a,b; cr b,t, −λ/2; cnot a,b; cr a,t, λ/2` is exactly the doubly controlled
 `U1(λ) = diag(1, e^{iλ})` — NOT the doubly controlled `RZ(λ)` (`neg_ccrz_block_is_u1`) -/
-theorem ccrz_template_is_ccu1 (h : LawfulAmp α P) (hh : LawfulHalf α P) (hn : LawfulNegHalf α P) (l : P)
-    (hneg : ∀ x : P, (Amp.cos (Amp.pneg α x) : α) = Amp.cos x ∧ (Amp.sin (Amp.pneg α x) : α) = -Amp.sin x) :
+theorem ccrz_template_is_ccu1 (h : LawfulAmp α P) (hh : LawfulHalf α P) (l : P) :
     let e : α := Amp.cos (Amp.phalf α l) + Amp.I P * Amp.sin (Amp.phalf α l)
     let e' : α := Amp.cos (Amp.pneg α (Amp.phalf α l)) + Amp.I P * Amp.sin (Amp.pneg α (Amp.phalf α l))
     app3 [0, 2] (CQ1.mCPhase e) (app3 [0, 1] CQ1.mCnot (app3 [1, 2] (CQ1.mCPhase e') (app3 [0, 1] CQ1.mCnot
@@ -86,7 +85,7 @@ theorem ccrz_template_is_ccu1 (h : LawfulAmp α P) (hh : LawfulHalf α P) (hn : 
     simp only [specMatrix, expi, ctrl_two, ctrl_bd2]
   rw [hsp]
   simp only [mCPhase_bd, matCX_eq_mCnot, I8_eq, app3_cd12, app3_cx01, app3_cd12_s, app3_cx01_s, app3_cd02]
-  simp only [e, e', (hneg _).1, (hneg _).2]
+  simp only [e, e', h.cos_pneg, h.sin_pneg]
   rw [← e1, ← e2]
   refine bd4_ext ?_ ?_ ?_ ?_ ?_ ?_ ?_ ?_ ?_ ?_ ?_ ?_ ?_ ?_ ?_ ?_ <;> grind
 
